@@ -174,6 +174,168 @@ def expected(at, weights_bad, not_unique=None):
     return {("?", "")}, []
 
 
+
+def helper_contracts(fns):
+    """the small crate-local functions init_recurse relies on, each executed on its own: they must be the
+    plain constructors / projections / table operations the per-node analysis takes them for"""
+    out = []
+
+    def find(suffix, sig):
+        ks = [k for k, v in fns.items() if k.endswith(suffix) and re.search(sig, v.split("\n", 1)[0])]
+        return ks[0] if len(ks) == 1 else None
+
+    def paths(key, name):
+        fn = mir.Fn(name, fns[key])
+        ex = mir.Executor(fn, max_visits=2)
+        ps = ex.run()
+        return ps, ex.unknown
+
+    def sym(name, i):
+        return ("sym", f"{name}:_{i}")
+
+    def check(tag, desc, suffix, sig, pred):
+        key = find(suffix, sig)
+        if key is None:
+            out.append((tag, desc, False, "function not found (or not unique) in the MIR dump"))
+            return
+        ps, unk = paths(key, tag)
+        try:
+            ok, why = pred(ps, unk)
+        except Exception as e:  # noqa: BLE001
+            ok, why = False, f"unexpected shape: {e}"
+        out.append((tag, desc, bool(ok), why))
+
+    def into_of(t, arg):
+        return isinstance(t, tuple) and t[0] == "call" and t[1].endswith("::into") and t[2] == [arg]
+
+    def one(ps, unk, n_calls):
+        return len(ps) == 1 and not unk and len(ps[0].calls) == n_calls and not ps[0].stores
+
+    check("ctor-helper-chance-data", "ChanceInfosetData::new stores exactly the probabilities it is given", "::new", r"-> ChanceInfosetData",
+          lambda ps, unk: (one(ps, unk, 1) and ps[0].env["_0"][0] == "agg" and into_of(ps[0].env["_0"][2]["probs"], sym("ctor-helper-chance-data", 1)), repr(ps[0].env.get("_0"))[:200] if ps else "no path"))
+    check("ctor-helper-infoset-builder", "PlayerInfosetBuilder::new stores exactly the actions and the previous position it is given", "::new", r"-> PlayerInfosetBuilder<A>",
+          lambda ps, unk: (one(ps, unk, 1) and into_of(ps[0].env["_0"][2]["actions"], sym("ctor-helper-infoset-builder", 1)) and ps[0].env["_0"][2]["prev_infoset"] == sym("ctor-helper-infoset-builder", 2),
+                           repr(ps[0].env.get("_0"))[:200] if ps else "no path"))
+
+    def pid(ps, unk):
+        r = ps[0].env["_0"][2]
+        b = sym("ctor-helper-infoset-data", 2)
+        prev = r["prev_infoset"]
+        prev_ok = prev == ("field", b, 1) or (prev[0] == "call" and prev[1].startswith("Option::<") and prev[2][0] == ("field", b, 1))
+        return (len(ps) == 1 and not unk and not ps[0].stores and r["infoset"] == sym("ctor-helper-infoset-data", 1) and r["actions"] == ("field", b, 0) and prev_ok, repr(r)[:240])
+    check("ctor-helper-infoset-data", "PlayerInfosetData::new keeps the label, the builder's actions and the builder's previous infoset", "::new", r"-> PlayerInfosetData<I, A>", pid)
+    check("ctor-helper-chance-node", "Chance::new stores exactly the outcomes and the infoset index it is given", "::new", r"-> Chance\b",
+          lambda ps, unk: (one(ps, unk, 1) and into_of(ps[0].env["_0"][2]["outcomes"], sym("ctor-helper-chance-node", 1)) and ps[0].env["_0"][2]["infoset"] == sym("ctor-helper-chance-node", 2),
+                           repr(ps[0].env.get("_0"))[:200] if ps else "no path"))
+
+    def ind(name):
+        def pred(ps, unk):
+            if len(ps) != 2 or unk:
+                return False, f"{len(ps)} paths {unk[:2]}"
+            got = {}
+            for p in ps:
+                (sc, d), = p.cond
+                if sc != ("discr", ("field", ("tuple", [sym(name, 1), sym(name, 2)]), 0)) or d[0] != "eq":
+                    return False, repr(sc)[:160]
+                r = p.env["_0"]
+                k = r[2] if r[0] == "idx" else (0 if "[0 of 2]" in r[1] else 1 if "[1 of 2]" in r[1] else None)
+                got[d[1]] = k
+            return got == {"0": 0, "1": 1}, f"player discriminant -> slot: {got}"
+        return pred
+    check("ctor-helper-ind", "PlayerNum::ind selects slot 0 for player one and slot 1 for player two", "::ind", r"PlayerNum", ind("ctor-helper-ind"))
+    check("ctor-helper-ind-mut", "PlayerNum::ind_mut selects slot 0 for player one and slot 1 for player two", "::ind_mut", r"PlayerNum", ind("ctor-helper-ind-mut"))
+
+    def entry(name, map_field, opt):
+        def pred(ps, unk):
+            if len(ps) != 2 or unk:
+                return False, f"{len(ps)} paths {unk[:2]}"
+            m = ("field", sym(name, 1), map_field)
+            for p in ps:
+                names = [c[0] for c in p.calls]
+                i_len = next((i for i, n in enumerate(names) if n.startswith("IndexMap::<") and n.endswith("::len")), None)
+                i_ent = next((i for i, n in enumerate(names) if n.startswith("IndexMap::<") and n.endswith("::entry")), None)
+                if i_len is None or i_ent is None or not i_len < i_ent or p.calls[i_len][1] != [m]:
+                    return False, "the index is not the table's length read before the lookup"
+                key = p.calls[i_ent][1][1]
+                if p.calls[i_ent][1][0] != m:
+                    return False, "lookup in another table"
+                if not opt and key != sym(name, 2):
+                    return False, "lookup with another key"
+                if opt and not (key[0] == "call" and key[1].startswith("Option::<K>::ok_or_else") and key[2][0] == sym(name, 2) and "(*_1).0" in repr(key[2][1])):
+                    return False, "the key is not `label, or else a fresh number from the counter`"
+                r = p.env["_0"]
+                e = r[2]["0"][2]
+                src = ("field", ("downcast", p.calls[i_ent][2], r[1]), 0)
+                if r[1] == "Vacant" and not (e.get("ind") == p.calls[i_len][2] and e.get("ent") == src):
+                    return False, "vacant entry does not carry (length before lookup, the map's vacant entry)"
+                if r[1] == "Occupied" and e.get("ent") != src:
+                    return False, "occupied entry does not carry the map's occupied entry"
+            return {p.env["_0"][1] for p in ps} == {"Vacant", "Occupied"}, "vacant and occupied arms"
+        return pred
+    check("ctor-helper-table-entry", "Builder::entry: a new key is offered the table's current length as its index", "::entry", r"_1: &mut compact::Builder", entry("ctor-helper-table-entry", 0, False))
+    check("ctor-helper-opt-table-entry", "OptBuilder::entry: a label is looked up as itself, no label as a fresh number; a new entry is offered the table's current length", "::entry", r"_1: &mut OptBuilder",
+          entry("ctor-helper-opt-table-entry", 1, True))
+
+    def counter(ps, unk):
+        p = ps[0]
+        c = ("field", sym("ctor-helper-opt-counter", 1), 0)
+        return (len(ps) == 1 and not unk and p.env["_0"] == c and len(p.stores) == 1 and p.stores[0][1] == ("op", "Add", c, ("const", "1_usize")), repr(p.stores)[:200])
+    check("ctor-helper-opt-counter", "anonymous chance nodes are numbered 0, 1, 2, ... (returns the counter, then increments it)", "::entry::{closure#0}", r"compact", counter)
+
+    def insert(ps, unk):
+        p = ps[0]
+        me = sym("ctor-helper-insert", 1)
+        c = p.calls[0]
+        return (len(ps) == 1 and not unk and len(p.calls) == 1 and c[0].endswith("::insert") and c[1] == [("field", me, 1), ("tuple", [("field", me, 0), sym("ctor-helper-insert", 2)])]
+                and p.env["_0"] == ("field", me, 0), repr(c[1])[:200])
+    check("ctor-helper-insert", "VacantEntry::insert stores (offered index, value) and returns that index", "::insert", r"compact::VacantEntry", insert)
+
+    def get(ps, unk):
+        p = ps[0]
+        r = p.env["_0"]
+        return (len(ps) == 1 and not unk and len(p.calls) == 1 and p.calls[0][0].endswith("::into_mut") and r[0] == "tuple" and ".0: usize" in repr(r[1][0]) and ".1: V" in repr(r[1][1]), repr(r)[:200])
+    check("ctor-helper-get", "OccupiedEntry::get returns the stored (index, value)", "::get", r"compact::OccupiedEntry", get)
+    check("ctor-helper-contains", "Builder::contains asks the table itself for the key", "::contains", r"compact::Builder",
+          lambda ps, unk: (len(ps) == 1 and not unk and ps[0].env["_0"][0] == "call" and ps[0].env["_0"][1].startswith("IndexMap::<") and "contains_key" in ps[0].env["_0"][1]
+                           and ps[0].env["_0"][2] == [("field", sym("ctor-helper-contains", 1), 0), sym("ctor-helper-contains", 2)], repr(ps[0].env.get("_0"))[:200]))
+    # Game::from_root: the set-up around the recursion
+    def from_root(ps, unk):
+        if unk:
+            return False, str(unk[:3])
+        oks = [p for p in ps if isinstance(p.env.get("_0"), tuple) and p.env["_0"][0] == "agg" and p.env["_0"][1] == "Ok"]
+        errs = [p for p in ps if p not in oks]
+        if len(oks) != 1 or len(errs) != 1:
+            return False, f"{len(oks)} accepting and {len(errs)} rejecting paths"
+        why = []
+        for p in ps:
+            rc = [c for c in p.calls if "init_recurse" in c[0]]
+            if len(rc) != 1:
+                return False, f"{len(rc)} calls of init_recurse"
+            a = rc[0][1]
+            if not (a[0][0] == "call" and "OptBuilder" in a[0][1] and a[0][1].endswith("::new")):
+                why.append("the chance table is not a fresh OptBuilder")
+            for k_, what in ((1, "player"), (2, "single-action")):
+                t = a[k_]
+                if not (t[0] == "tuple" and len(t[1]) == 2 and "[0 of 2]" in repr(t[1][0]) and "[1 of 2]" in repr(t[1][1])
+                        and repr(t[1][0]).replace("[0 of 2]", "") == repr(t[1][1]).replace("[1 of 2]", "")):
+                    why.append(f"the {what} tables are not passed as [slot 0, slot 1] of one pair")
+            if a[3] != sym("ctor-helper-from-root", 1):
+                why.append("the tree passed down is not the root")
+            none = ("agg", "None", {})
+            if a[4] != ("tuple", [none, none]):
+                why.append(f"the initial history is not [None, None]: {repr(a[4])[:80]}")
+        g = oks[0].env["_0"][2]["0"]
+        if not (g[0] == "agg" and g[1] == "Game" and g[2].get("root") == ("field", ("downcast", ("call", "<Result<Node, GameError> as Try>::branch", [oks[0].calls[[i for i, c in enumerate(oks[0].calls) if "init_recurse" in c[0]][0]][2]]), "Continue"), 0)):
+            why.append("the game's root is not the node returned by the recursion")
+        r = errs[0].env["_0"]
+        if not (r[0] == "call" and "from_residual" in r[1]):
+            why.append("an error of the recursion is not passed on")
+        return not why, "; ".join(why)
+    check("ctor-helper-from-root", "Game::from_root starts the recursion at the root with fresh tables, slot 0 = player one, an empty history for both players; returns its node or passes its error on",
+          "::from_root", r"-> Result<Game<I, A>, GameError>", from_root)
+    return out
+
+
 def run(prop, tier, mir_text=None):
     t0 = time.time()
     res = {"findings": [], "infra": [], "evaluations": 0, "obligations": [], "solver_s": 0.0, "units": [], "coverage": {}}
@@ -192,16 +354,21 @@ def run(prop, tier, mir_text=None):
     if ex.unknown or len(paths) < 20:
         res["infra"].append(f"init_recurse: {sorted(set(ex.unknown))[:4]} / {len(paths)} paths")
         return res
-    ckey = next((k for k in fns if k.endswith("::init_recurse::{closure#0}")), None)
-    clo_fn, clo_paths, clo_caps = None, [], {}
-    if ckey is not None:
-        clo_fn = mir.Fn("clo", fns[ckey])
-        cex = mir.Executor(clo_fn, max_visits=3)
-        clo_paths = cex.run()
-        if cex.unknown:
-            res["infra"].append(f"init_recurse closure: {sorted(set(cex.unknown))[:3]}")
-        for m in re.finditer(r"debug (\w+) => \(\*\(\(\*_1\)\.(\d+):", fns[ckey]):
-            clo_caps[int(m.group(2))] = m.group(1)
+    clo_cache = {}
+
+    def closure_paths(span):
+        """the closure with this source span, executed on its own"""
+        if span not in clo_cache:
+            body = next((v for k_, v in fns.items() if "init_recurse::{closure#" in k_ and "{closure@" + span + "}" in v.split("\n", 1)[0]), None)
+            if body is None:
+                clo_cache[span] = None
+            else:
+                cex = mir.Executor(mir.Fn("clo", body), max_visits=3)
+                cps = cex.run()
+                if cex.unknown:
+                    res["infra"].append(f"init_recurse closure: {sorted(set(cex.unknown))[:3]}")
+                clo_cache[span] = cps
+        return clo_cache[span]
 
     def is_ind(t):
         return isinstance(t, tuple) and t[0] == "call" and t[1].startswith("PlayerNum::ind::<")
@@ -214,9 +381,9 @@ def run(prop, tier, mir_text=None):
         got = classify(p)
         at = atoms(p)
         unknown_atoms = [a for a in at if a[0] == "other"]
-        if unknown_atoms:
-            res["infra"].append("init_recurse: branch condition not recognised: " + str(unknown_atoms[0])[:160])
-            continue
+        # a branch condition the analysis does not recognise establishes no fact: if the path then lacks a
+        # required fact it is reported as a candidate (the native tree family decides between violation and
+        # inconclusive); if it lacks nothing the path is inconclusive (the unknown test may hide something)
         pushed = [c[1][1] for c in p.calls if c[0].startswith("Vec::<f64>::push")]
         examined = [a[2] for a in at if a[0] == "outcome" and a[1]]
         # distinctness test (decided by the solver below): here only whether the path treated the list as distinct
@@ -233,6 +400,8 @@ def run(prop, tier, mir_text=None):
             structural.append(("ctor-one-table", "a label is accepted as a single-action infoset only after checking it does not name a multi-action infoset of the same player, and vice versa",
                                not one_table, f"path facts {[(a[0], a[1]) for a in at][:14]} -> returned {got}; not established: {one_table}"))
         ok = g in want and not missing
+        if ok and unknown_atoms:
+            res["infra"].append("init_recurse: branch condition not recognised: " + str(unknown_atoms[0])[:160])
         w1 = sorted(want)[0]
         name = "ctor-table-" + (got[1] or got[0]) if ok else "ctor-table-" + (w1[1] or w1[0])
         desc = {"err": f"returns {got[1]} only in the documented situation", "ok": f"accepts (returns {got[1]}) only after every rule of this node was checked and none is violated",
@@ -258,11 +427,11 @@ def run(prop, tier, mir_text=None):
             if isinstance(t, dict):
                 return {k: sub(v) for k, v in t.items()}
             return t
-        try:
-            conds = [ctx.cond(sub(s), d) for s, d in p.cond]
-        except Exception as e:  # noqa: BLE001
-            res["infra"].append(f"init_recurse: cannot translate a branch condition: {e}")
-            continue
+        for s_, d_ in p.cond:
+            try:
+                conds.append(ctx.cond(sub(s_), d_))
+            except Exception as e:  # noqa: BLE001
+                res["infra"].append(f"init_recurse: cannot translate a branch condition: {e}")
         AX = {"is_finite": "(not (or (fp.isInfinite x) (fp.isNaN x)))", "is_nan": "(fp.isNaN x)", "is_infinite": "(fp.isInfinite x)",
               "is_sign_positive": "(fp.isPositive x)", "is_sign_negative": "(fp.isNegative x)", "is_normal": "(fp.isNormal x)", "is_subnormal": "(fp.isSubnormal x)"}
         axioms = []
@@ -351,7 +520,8 @@ def run(prop, tier, mir_text=None):
                     r = p.env.get("_0")
                     info_ind = r[2]["0"][2]["0"][2]["infoset"] if got == ("ok", "Player") else None
                     why = []
-                    if clo[0] != "closure" or clo_fn is None:
+                    clo_paths = closure_paths(clo[1]) if clo[0] == "closure" else None
+                    if clo_paths is None:
                         structural.append(("ctor-player-recursion", "children are built by the constructor's own closure", False, repr(clo)[:200]))
                         continue
                     # the closure body, executed on its own, with its captures replaced by what the outer path captured
@@ -407,6 +577,7 @@ def run(prop, tier, mir_text=None):
                 if got == ("ok", "Player"):
                     pl = p.env["_0"][2]["0"][2]["0"][2]
                     structural.append(("ctor-player-node", "the node built carries the node's player and the infoset index found or inserted for its label", pl["num"] == num and ("entry" in repr(pl["infoset"])), repr(pl["num"])[:100]))
+    structural += helper_contracts(fns)
     need = {("err", k) for k in ("EmptyChance", "NonPositiveChance", "ProbabilitiesNotEqual", "EmptyPlayer", "ActionsNotEqual", "ActionsNotUnique", "ImperfectRecall")}
     structural.append(("ctor-all-rules-reachable", "every documented error kind is returned on some path", need <= kinds_seen, f"seen {sorted(k[1] for k in kinds_seen if k[0] == 'err')}"))
     results = smt.solve_batch(queries, "z3") if queries else {"verdicts": [], "time": 0.0}
